@@ -2,6 +2,8 @@ import CoercionModel.Proofs.Engine
 import CoercionModel.Proofs.EnginePlan
 import CoercionModel.Model.Skeletons
 import CoercionModel.Generated.F10
+import CoercionModel.Model.SkeletonsRest
+import CoercionModel.Generated.F14
 set_option linter.unusedSimpArgs false
 /-
   C01 — Declared order: blocks, then actions of a sequence, each gated on success.
@@ -153,5 +155,9 @@ theorem facts_skeleton :
     Generated.F10.execSeq = Skeletons.execSeq ∧
     Generated.F10.executeSequences = Skeletons.executeSequences := by
   decide
+
+/-- the engine functions this property's model depends on only through their effects (group `orderRest` of
+    Model/SkeletonsRest) still have the shape they were read with (regenerated from /repo on every run) -/
+theorem facts_skeleton_rest : Generated.F14.orderRest = SkeletonsRest.orderRest := by rfl
 
 end Coercion.C01
